@@ -33,7 +33,7 @@ TRANS = ['axiom: log2(2^y)=y, x>0 => 2^(log2 x)=x, 2^y>0 (and base 10) for the '
          'uninterpreted math.pow/log2/log10']
 
 # ---- mod -------------------------------------------------------------------
-contract(F, 'mod', props=('C15', 'C12', 'C16'),
+contract(F, 'mod', props=('C15',),
          params={'a': 'num', 'b': 'num'},
          requires=lambda c: c.b > 0,
          returns=lambda k: 'int' if k['a'] == 'int' and k['b'] == 'int' else 'real',
@@ -70,7 +70,7 @@ def wrap_cong(c):
     return c.exists_int(lambda k: c.x == c.result + k * m, exact=z3.IsInt((c.x - c.result) / mr))
 
 
-contract(F, 'wrap', props=('C15', 'C16'),
+contract(F, 'wrap', props=('C15',),
          params={'x': 'num', 'lo': 'num', 'hi': 'num', 'range': 'none'},
          requires=lambda c: c.lo < c.hi,
          returns=lambda k: 'int' if all(k[n] == 'int' for n in ('x', 'lo', 'hi')) else 'real',
@@ -99,7 +99,7 @@ for name, side in (
         ('round', lambda c: absr(c.result - c.x) * 2 <= c.quant),
         ('roundup', lambda c: z3.And(c.x <= c.result, c.result < c.x + c.quant)),
         ('trunc', lambda c: z3.And(c.x - c.quant < c.result, c.result <= c.x))):
-    contract(F, name, props=('C15', 'C12'),
+    contract(F, name, props=('C15',),
              params={'x': 'num', 'quant': 'num'},
              requires=lambda c: c.quant > 0,
              returns='real',
